@@ -477,11 +477,16 @@ func assignedFields(fd *ast.FuncDecl) []string {
 		recv = fd.Recv.List[0].Names[0].Name
 	}
 	ast.Inspect(fd.Body, func(n ast.Node) bool {
-		as, ok := n.(*ast.AssignStmt)
-		if !ok {
+		var lhs []ast.Expr
+		switch x := n.(type) {
+		case *ast.AssignStmt:
+			lhs = x.Lhs
+		case *ast.IncDecStmt:
+			lhs = []ast.Expr{x.X}
+		default:
 			return true
 		}
-		for _, l := range as.Lhs {
+		for _, l := range lhs {
 			if se, ok := l.(*ast.SelectorExpr); ok {
 				if id, ok := se.X.(*ast.Ident); ok && id.Name == recv && !seen[se.Sel.Name] {
 					seen[se.Sel.Name] = true
